@@ -50,6 +50,7 @@ def resStr : Res → String
   | .ierr ps => s!"ierr in={listStr (ps.map toHex)}"
   | .panic => "panic"
   | .bad w => s!"bad:{w}"
+  | .envBad => "envbad"
 
 structure ObsT where
   cap : String
@@ -175,11 +176,12 @@ def processLine (st : DState) (line : String) : DState × List String :=
         match cmd with
         | .new cap f =>
           let s0 : St := { a := ⟨st.M, [], none⟩, ans := answers }
-          match newArena st.M cap f s0 with
+          match newArena st.E st.M cap f s0 with
           | (s, .ok a) => (some a, .unit, s.evs, s.underflow, s.ans.length)
           | (s, .err) => (none, .err, s.evs, s.underflow, s.ans.length)
           | (s, .panic) => (none, .panic, s.evs, s.underflow, s.ans.length)
           | (s, .bad w) => (none, .bad w, s.evs, s.underflow, s.ans.length)
+          | (s, .envBad) => (none, .envBad, s.evs, s.underflow, s.ans.length)
         | .nop => (st.arena, .unit, [], false, answers.length)
         | .drop =>
           match st.arena with
